@@ -677,7 +677,14 @@ func c01Sends(c *core.Ctx) {
 					return false
 				}
 				// in-process: frame writer given frame{data: Clone(m)}
-				if sendsOnParam(ci.Static) >= 0 {
+				// ... or a helper of the package that clones its parameter and writes the data frame on every
+				// successful path, given the message
+				for ai, a := range call.Call.Args {
+					if core.OriginIs(a, func(x ssa.Value) bool { return x == ssa.Value(mpar) }) && inprocDataWriteOfParam(ci.Static, ai, 0) && sendsOnParam(ci.Static) < 0 {
+						return true
+					}
+				}
+				if isInprocFrameWriter(ci.Static) {
 					for _, a := range call.Call.Args {
 						if core.NamedOf(a.Type()) == "frame" {
 							dv := frameFieldValue(a, "data")
